@@ -21,6 +21,22 @@ time-outs of the stack) and judged:
                                            channel tables and pending tables, ACL queue state, drain()
   bystander_unusable/..., reconnect/...    the bystander connection still works; a new connection between
                                            the same devices can be made and the same procedure succeeds
+  tables/connection_listed_after_transport_loss/...   after a transport loss NO link of that host is listed by
+                                           Host / Device any more, and the per-connection state of the victim's
+                                           second link (side 'local_second_link') is gone like that of the first
+
+Extension (families added to the catalogue; all go through the same enumeration and oracle):
+  * command/status/event procedures (le_encrypt, le_subrate_request, classic_switch_role, classic_remote_features):
+    the waiter exists between the Command Status and the completion event; enumerated at zero delay AND under
+    directed delay vectors of the victim's HCI stream that pull status, completion event and Disconnection
+    Complete apart;
+  * pairing with a user in the loop (numeric comparison with a slow user on either side, legacy passkey entry):
+    the stack's prompt task is pending when the link goes away; where the cut is certain to fire no later than
+    the prompt (k <= coverage.user_prompt_at) the user does not answer at all within the horizon ('user': 'never');
+  * several waiters at once: one on each of the victim's two links, and five of different layers on one link
+    (GATT read, GATT write queued behind it, two LE CoC connects, one HCI command);
+  * the victim's second link carries state of its own in every transport-loss case (GATT subscription of the
+    bystander, an open LE CoC / the SDP channel) and is judged after the loss.
 """
 
 from __future__ import annotations
@@ -48,8 +64,15 @@ RULE = (
     'from the link + Disconnection Complete/CONNECTION_TIMEOUT), Host.on_transport_lost()} the procedure is re-run '
     'on a fresh world and the cut is injected after the k-th packet (both tiers: all k x all 4 kinds at zero '
     'delay), plus Hypothesis-drawn (procedure, k, cut, order-preserving per-node HCI delay vectors; quick 500, '
-    'thorough 32000). non-trivial = the procedure was still pending when the cut '
-    'fired, or the cut is a transport loss; distinct by (procedure, k, cut kind, delays).'
+    'thorough 32000 over the first 27 procedures, quick 120 / thorough 9600 over the 10 procedures of the extension). '
+    'Extension: the command/status/event procedures are additionally enumerated for all k x 4 kinds x directed delay '
+    'vectors of the victim\'s HCI stream (quick 1 vector; thorough 6 vectors x peer stream undelayed/delayed); the three '
+    'pairing-with-a-user procedures and classic_l2cap_connect_two_links are enumerated over a stratified subset of k '
+    'in the quick tier (every k within 2 of the boundary at which the slow user is asked, every 5th / 2nd k '
+    'otherwise) and over every k in the thorough tier; in pairing cases with k <= coverage.user_prompt_at the user '
+    'never answers (case field user=never), otherwise after 2 virtual seconds. '
+    'non-trivial = the procedure was still pending when the cut '
+    'fired, or the cut is a transport loss; distinct by (procedure, k, cut kind, delays, user).'
 )
 ASSUMPTIONS = [
     '"every operation" is the procedure catalogue listed in coverage.catalogue, not every coroutine of the code base',
@@ -65,6 +88,19 @@ ASSUMPTIONS = [
     'after a transport loss only the waiter and clean-up clauses are judged (local side); connection tables, the '
     'bystander and re-connection are judged for link cuts only',
     'empty per-handle containers (e.g. an empty channel dict) are not counted as stale state',
+    'a transport loss takes every link of that host down (the reading fixed with 4b2d67e): after it Host.connections '
+    'and Device.connections must list neither the link under test nor the victim\'s second link, and the second '
+    'link\'s per-connection state is judged like the first one\'s; the controller cannot be told and is not judged',
+    'a procedure made of several awaitables (two links / several waiters on one link) is given one loop iteration '
+    'before a cut at k = 0, so that each of its waiters has issued its first packet into the HCI tap: k = 0 still '
+    'means "started, nothing has crossed"; an operation STARTED on a connection that is already closed is outside '
+    'the property (it speaks of operations that were waiting) and is not generated',
+    'the pairing delegate is application code: a user who has not answered when the link is cut is modelled by a '
+    'delegate coroutine that sleeps beyond the horizon; the task in which the stack awaits it is a task of the '
+    'stack and has to be cancelled with the connection (clause task_left_pending); the peer\'s user never answers '
+    'only under cuts the peer is told about (local/remote disconnect)',
+    'the gathered procedures end normally whatever their parts do (exceptions are collected), so their own ending '
+    'is always "ok"; a part that hangs shows as waiter_hangs/?/... together with task_left_pending/<site>/...',
 ]
 SHRINK_KEYS = ('d0', 'd1', 'd2')
 
@@ -275,9 +311,12 @@ async def discover_chr(client, descriptors: bool = False):
 # procedure catalogue: setup(env) -> state (not faulted), run(env, state) -> the awaitable under test
 # ---------------------------------------------------------------------------
 class Proc:
-    def __init__(self, name, classic, what, setup, run, check=None):
+    def __init__(self, name, classic, what, setup, run, check=None, start_hops=0):
         self.name, self.classic, self.what = name, classic, what
         self.setup, self.run, self.check = setup, run, check
+        # loop iterations granted to the procedure before a cut at k = 0, so that every waiter it is made of
+        # has started (issued its first packet into the tap) when the cut fires; 0 for a single awaitable
+        self.start_hops = start_hops
 
 
 async def _no_setup(env):
@@ -650,11 +689,12 @@ PROCS = [
          _s_user(False, 'KEYBOARD_INPUT_ONLY', 'DISPLAY_OUTPUT_ONLY', 0), _r_pair, _eq(True)),
     # waiters on both links of the victim / several waiters on one link
     Proc('le_coc_connect_two_links', False, 'create_l2cap_channel(LeCreditBasedChannelSpec) on the link under test and on the second link at once',
-         _no_setup, _r_coc_two_links, _eq(['CONNECTED', 'CONNECTED'])),
+         _no_setup, _r_coc_two_links, _eq(['CONNECTED', 'CONNECTED']), start_hops=1),
     Proc('classic_l2cap_connect_two_links', True, 'create_l2cap_channel(ClassicChannelSpec) on the link under test and on the second link at once',
-         _no_setup, _r_classic_two_links, _eq(['OPEN', 'OPEN'])),
+         _no_setup, _r_classic_two_links, _eq(['OPEN', 'OPEN']), start_hops=1),
     Proc('le_waiters_one_link', False, 'GATT read + GATT write queued behind it + two LE CoC connects + HCI LE Read PHY, all on one link at once',
-         _s_chr, _r_le_waiters_one_link, _eq([node_value(1), 'written', 'CONNECTED', 'CONNECTED', 0])),
+         _s_chr, _r_le_waiters_one_link,
+         lambda r: r[0] in (node_value(1), b'written-by-victim') and r[1:] == ['written', 'CONNECTED', 'CONNECTED', 0], start_hops=1),
 ]
 EXT_HCI_PROCS = ('le_encrypt', 'le_subrate_request', 'classic_switch_role', 'classic_remote_features')
 USER_PROCS = {'smp_pair_numeric_user_slow': 0, 'smp_pair_numeric_peer_user_slow': 1, 'smp_pair_legacy_passkey_user_slow': 0}
@@ -908,7 +948,13 @@ def _run_case(ctx, case, loop, measure) -> None:
     async def drive():
         ptask = S['ptask'] = loop.create_task(procedure())
         if cut is not None and k == 0:
-            loop.call_soon(fire_cut)
+            def hop(n):
+                if n <= 0:
+                    fire_cut()
+                else:
+                    loop.call_soon(hop, n - 1)
+
+            loop.call_soon(hop, proc.start_hops)
         await asyncio.wait([ptask])
         S['count_at_done'] = S['count']
         if cut is not None and not S['cut_fired']:
@@ -1016,6 +1062,7 @@ def _run_case(ctx, case, loop, measure) -> None:
         if cut == 'transport_lost':
             # the victim's other link went down with the same transport
             sides.append(('local_second_link', local, env.conn_bl, handle_bl))
+            labels.add('second_link_judged')
         for side, node, conn, handle in sides:
             for table, detail, *more in stale_state(node, conn, handle, classic):
                 fail(f'stale_state/{table}/{detail}/{side}/{cls}',
@@ -1084,6 +1131,12 @@ def _run_case(ctx, case, loop, measure) -> None:
 def _record(ctx, case, labels, S, proc, measure) -> None:
     cut, k = case['cut'], case['k']
     inside = bool(S.get('pending_at_cut'))
+    family = ('hci_status_event' if proc.name in EXT_HCI_PROCS else 'user_in_the_loop' if proc.name in USER_PROCS
+              else 'multi_waiter' if proc.name in MULTI_PROCS else None)
+    if cut is not None and family and inside:
+        labels.add(f'family:{family}/cut_inside')
+        if any(case_delays(case)):
+            labels.add(f'family:{family}/delayed')
     if cut is not None:
         labels.add('cut_inside_procedure' if inside else 'cut_outside_procedure')
         if k == 0:
@@ -1117,10 +1170,35 @@ def run(ctx) -> None:
     ctx.extra['M_when_awaitable_returns'] = {name: m['M_done'] for name, m in M.items()}
     ctx.extra['cut_kinds'] = list(KINDS)
 
+    ctx.extra['user_prompt_at'] = {name: M[name]['prompt_at'] for name in USER_PROCS}
+
+    def boundaries(p) -> list:
+        """k values enumerated for procedure p: all of them; in the quick tier a stratified subset for the long
+        variants of procedures that are enumerated in full elsewhere (pairing with a user, two classic channels)."""
+        ks = list(range(0, M[p.name]['M'] + 1))
+        if not ctx.quick:
+            return ks
+        if p.name in USER_PROCS:
+            at = M[p.name]['prompt_at']
+            phase = sorted(USER_PROCS).index(p.name)
+            return [k for k in ks if abs(k - at) <= 2 or k % 5 == phase or k == ks[-1]]
+        if p.name == 'classic_l2cap_connect_two_links':
+            return [k for k in ks if k % 2 == 0 or k == ks[-1]]
+        return ks
+
+    def user_mode(p, k, cut):
+        """'never' where it is certain that the cut fires no later than the moment the slow user is asked: the user
+        has not answered when the link goes away (and never will within the horizon)."""
+        if p.name not in USER_PROCS or k > M[p.name]['prompt_at']:
+            return None
+        if USER_PROCS[p.name] == 1 and cut not in ('local_disconnect', 'remote_disconnect'):
+            return None  # the peer is not told about these cuts: its user must be allowed to answer
+        return 'never'
+
     # ---- enumeration of the boundaries at zero delay
     n = 0
     for p in PROCS:
-        for k in range(0, M[p.name]['M'] + 1):
+        for k in boundaries(p):
             for cut in KINDS:
                 n += 1
                 if n % ctx.nshards != ctx.shard:
@@ -1128,8 +1206,28 @@ def run(ctx) -> None:
                 if ctx.out_of_time():
                     ctx.label('budget_hit:enumeration')
                     continue
-                run_case(ctx, {'proc': p.name, 'k': k, 'cut': cut, 'delays': []})
-    ctx.extra['boundaries_enumerated'] = sum(m['M'] + 1 for m in M.values())
+                case = {'proc': p.name, 'k': k, 'cut': cut, 'delays': []}
+                if user_mode(p, k, cut):
+                    case['user'] = user_mode(p, k, cut)
+                run_case(ctx, case)
+    ctx.extra['boundaries_enumerated'] = sum(len(boundaries(p)) for p in PROCS)
+
+    # ---- command/status/event procedures: every boundary x cut kind x directed delay vectors of the victim's HCI
+    # stream that separate the Command Status from the completion event (and from the Disconnection Complete)
+    vectors = ctx.pick([[50, 0]], [[0, 50], [50, 0], [50], [7], [0, 0, 50], [1, 50, 7]])
+    peer_vectors = ctx.pick([[]], [[], [50]])
+    for name in EXT_HCI_PROCS:
+        for k in range(0, M[name]['M'] + 1):
+            for cut in KINDS:
+                for d0 in vectors:
+                    for d1 in peer_vectors:
+                        n += 1
+                        if n % ctx.nshards != ctx.shard:
+                            continue
+                        if ctx.out_of_time():
+                            ctx.label('budget_hit:enumeration')
+                            continue
+                        run_case(ctx, {'proc': name, 'k': k, 'cut': cut, 'd0': d0, 'd1': d1, 'd2': []})
 
     # ---- generated delays for a sample of (procedure, k, cut)
     def triple(name):
@@ -1141,8 +1239,11 @@ def run(ctx) -> None:
             .filter(lambda d: any(any(x) for x in d)),
         }).map(norm_case)
 
-    strategy = st.sampled_from([p.name for p in PROCS]).flatmap(triple)
+    new = set(EXT_HCI_PROCS) | set(USER_PROCS) | set(MULTI_PROCS)
+    strategy = st.sampled_from([p.name for p in PROCS if p.name not in new]).flatmap(triple)
     ctx.hyp('delayed', lambda c: run_case(ctx, c), strategy, max_examples=ctx.n(500, 32000))
+    strategy = st.sampled_from(sorted(new)).flatmap(triple)
+    ctx.hyp('delayed_ext', lambda c: run_case(ctx, c), strategy, max_examples=ctx.n(120, 9600))
 
     for kind in KINDS:
         ctx.floor(f'cut:{kind}', 20)
@@ -1152,6 +1253,18 @@ def run(ctx) -> None:
     ctx.floor('reconnected_and_repeated', 20)
     for p in PROCS:
         ctx.floor(f'proc:{p.name}', 3)
+    # the classes added by the extension (small enumerated families are spread over the shards of the thorough
+    # tier, so their floors apply to the single-process tier only)
+    single = ctx.nshards == 1
+    ctx.floor('family:hci_status_event/cut_inside', 30 if single else 3)
+    ctx.floor('family:hci_status_event/delayed', 20 if single else 3)
+    ctx.floor('family:multi_waiter/cut_inside', 30 if single else 3)
+    ctx.floor('family:user_in_the_loop/cut_inside', 30 if single else 3)
+    ctx.floor('user:never', 20 if single else 0)
+    ctx.floor('user_prompt_cancelled_by_cut', 6 if single else 0)
+    ctx.floor('user_prompt_pending_at_cut', 6 if single else 0)
+    ctx.floor('second_link_had_state', 20)
+    ctx.floor('second_link_judged', 20)
 
 
 def replay(ctx, case) -> None:
